@@ -9,10 +9,6 @@ import (
 	"verifh/vh"
 )
 
-// known finding: FloatArrayEncodeAll detects NaN through the SUM of src[1:], so a NaN-free
-// input whose running float64 sum becomes NaN (+Inf and -Inf both present) is rejected.
-const sigFloatSumNaN = "float-batch-sum-nan"
-
 type fltCase struct {
 	Bits                       []uint64               `json:"bits"` // IEEE-754 bit patterns
 	SB                         []byte                 `json:"impl_scalar_bytes,omitempty"`
@@ -116,10 +112,10 @@ func runFloat(w *vh.W, c *jcase) {
 			sum += x
 		}
 	}
+	// inputs whose running sum is NaN although no element is (+Inf and -Inf, overflow then -Inf):
+	// the shape of the fixed finding float-batch-sum-nan; counted, no longer tolerated
+	sumNaN := !hasNaN && math.IsNaN(sum)
 	sig := ""
-	if !hasNaN && math.IsNaN(sum) {
-		sig = sigFloatSumNaN
-	}
 	var l lets
 	t := l.wrap(fmt.Sprintf("CFloat %s %s %s %s %s %s %s", l.u64s(s.Bits), l.optBytes(s.SB, s.SBOK), l.optBytes(s.BB, s.BBOK),
 		l.optU64s(s.DSS, s.DSSOK), l.optU64s(s.DBS, s.DBSOK), l.optU64s(s.DSB, s.DSBOK), l.optU64s(s.DBB, s.DBBOK)))
@@ -127,8 +123,8 @@ func runFloat(w *vh.W, c *jcase) {
 	w.Count("kind", "float")
 	w.Count("float.len", lenClass(len(s.Bits)))
 	w.Count("float.has_nan", fmt.Sprint(hasNaN))
-	if sig != "" {
-		w.Count("float.known_finding_shape", sig)
+	if sumNaN {
+		w.Count("float.nan_free_sum_is_nan", "true")
 	}
 }
 
@@ -249,7 +245,7 @@ func genFloat(r *rand.Rand, big bool) jcase {
 	if n > 0 && r.IntN(8) == 0 { // malformed stream: a NaN somewhere
 		v[r.IntN(n)] = nanPatterns[r.IntN(len(nanPatterns))]
 	}
-	if n > 2 && r.IntN(25) == 0 { // known-finding shape: +Inf and -Inf after the first value
+	if n > 2 && r.IntN(25) == 0 { // +Inf and -Inf after the first value (the sum of src[1:] is NaN, no element is)
 		i, j := 1+r.IntN(n-1), 1+r.IntN(n-1)
 		if i != j && !isNaNBits(v[0]) {
 			v[i], v[j] = 0x7FF0000000000000, 0xFFF0000000000000
